@@ -267,6 +267,19 @@ func (c *c11Chain) genLcaFamily(r *vg.Rand) c11Family {
 				ValidatorAddress: cvals.Validators[i].Address, Timestamp: c.times[common], Signature: r.Bytes(64)}
 			fl[i] = types.BlockIDFlagCommit
 			fam.shape += "-forged-slot"
+		} else if fam.shape == "equivocation" {
+			// ... or a precommit for nil (never verified) under an address that is nobody's
+			if rc := c.bs.LoadBlockCommit(k); rc != nil {
+				for i := range fl {
+					if fl[i] != types.BlockIDFlagCommit && i < len(rc.Signatures) && !rc.Signatures[i].Absent() {
+						commit.Signatures[i] = types.CommitSig{BlockIDFlag: types.BlockIDFlagNil,
+							ValidatorAddress: r.Bytes(20), Timestamp: c.times[common], Signature: r.Bytes(64)}
+						fl[i] = types.BlockIDFlagNil
+						fam.shape += "-forged-nil-unknown-address"
+						break
+					}
+				}
+			}
 		}
 	}
 	base := &types.LightClientAttackEvidence{
